@@ -1,6 +1,8 @@
 """C05 -- posting to an active object always returns; the system reaches quiescence."""
 import threading
 
+import miros.activeobject as AO
+from miros.event import Event
 from vt import detsched as ds, aosim
 
 ID = 'C05'
@@ -46,7 +48,7 @@ def window_hooks(s, ao_holder):
   return on_switch_note
 
 
-def run_scenario(ctx, rng, plans, fan, nev, spied, instrumented, check=None):
+def run_scenario(ctx, rng, plans, fan, nev, spied, instrumented, check=None, extras=None):
   B = 40000 + 3000 * nev
   s = ds.Sched(seed=rng.randrange(1 << 30), max_steps=B, **aosim.policy_for(rng, est_len=400 + 150 * nev))
   hist = aosim.History()
@@ -55,13 +57,37 @@ def run_scenario(ctx, rng, plans, fan, nev, spied, instrumented, check=None):
   try:
     ao = aosim.make_ao(hist, instrumented=instrumented)
     st = aosim.make_state(hist, fan, spied)
+    live = (extras or {}).get('live')
+    if live:
+      # live output switched on: lines go through the writer thread into harness lists
+      ao.live_spy, ao.live_trace = live
+      result['live_spy_lines'], result['live_trace_lines'] = [], []
+      ao.register_live_spy_callback(result['live_spy_lines'].append)
+      ao.register_live_trace_callback(result['live_trace_lines'].append)
     try:
+      if extras and extras.get('pubs'):
+        ao.subscribe(Event(signal='C04_PUB'), queue_type=extras['sub_kind'])
       ao.start_at(st)
+      if extras and extras.get('pubs'):
+        s.quiesce()      # the subscription made before start_at is performed by the object's own thread
       ld = ao.locking_deque
       # abstract global state for lasso (livelock cycle) detection: everything that records progress
+      fab = ao.fabric
       s.state_fn = lambda: (ds._q.Queue.qsize(ld.locking_queue), tuple(id(x) for x in ld.deque), len(hist.handled),
-                            sum(1 for p in hist.posts if p['ret'] is not None), len(hist.posts), len(hist.dispatch))
+                            sum(1 for p in hist.posts if p['ret'] is not None), len(hist.posts), len(hist.dispatch),
+                            # progress of the other threads: live-output writer, fabric queues, every logged queue operation
+                            ds._q.Queue.qsize(ao.writer._queue), len(result.get('live_spy_lines', ())), len(result.get('live_trace_lines', ())),
+                            ds._q.Queue.qsize(fab.fifo_fabric_queue), ds._q.Queue.qsize(fab.lifo_fabric_queue), len(ds.OPLOG), len(ds.PQLOG))
       ths = [ds.SThread(target=aosim.poster, args=(ao, hist, 'p%d' % i, pl)) for i, pl in enumerate(plans)]
+      if extras:
+        # events from timed sources and from the publish/subscribe fabric join the posters' events
+        for i, (kind, period, times, deferred) in enumerate(extras.get('timed', ())):
+          (ao.post_fifo if kind == 'fifo' else ao.post_lifo)(Event(signal='EVT', payload=('t', i)), period=period, times=times, deferred=deferred)
+
+        def publisher():
+          for k in extras.get('pubs', ()):
+            AO.ActiveFabric().publish(Event(signal='C04_PUB', payload=('p', k)))
+        ths.append(ds.SThread(target=publisher))
       for t in ths:
         t.start()
       for t in ths:
